@@ -3,7 +3,7 @@
    fixed F-C18-1 recorded token overwritten, F-C18-2 service as minter). *)
 From Coq Require Import String List NArith Lia Bool.
 From Ax Require Import Lib.Bytes Lib.Mvx Lib.SolAbi Lib.Keccak Model.Check Model.Env Model.Gateway Model.TokenManager Model.Its
-     Proofs.GatewayMsgs Proofs.TMFacts Proofs.ItsFacts Proofs.ItsWorld Proofs.ItsMore Gen.Generated.
+     Proofs.GatewayMsgs Proofs.TMFacts Proofs.ItsFacts Proofs.ItsWorld Proofs.ItsMore Proofs.TMToken Proofs.ItsTokens Gen.Generated.
 Import ListNotations.
 Open Scope N_scope.
 
@@ -47,10 +47,24 @@ Section C18.
   Proof. exact transfer_role_minter_frame. Qed.
   Theorem c18_no_minter_no_mint : forall t l x a v, has_minter t (t_caller x) = false -> tm_mint t l x a v = None.
   Proof. exact mint_needs_minter. Qed.
+
+  (* ---- every operation, every history (Proofs/TMToken.v, Proofs/ItsTokens.v) ----
+     no endpoint of a token manager changes its recorded token (all sixteen operations); in the ITS world, the token recorded
+     by the manager at address a survives every operation of all 25 kinds in any order -- the only assumption is about the
+     environment: no operation deploys a NEW manager at a's address (deployment addresses are fresh) *)
+  Variable verify : bytes -> bytes -> bytes -> bool.
+  Theorem c18_endpoints_keep_token : forall t l o t' l' r e, run_endpoint t l o = Some (t', l', r, e) -> tm_token t' = tm_token t.
+  Proof. exact run_endpoint_token. Qed.
+  Theorem c18_token_forever_step : forall a w o, (forall c, iop_ctx o = Some c -> ic_newtm c <> a) -> tka a w (fst (istep H verify w o)).
+  Proof. exact (istep_token_forever H verify). Qed.
+  Theorem c18_token_forever : forall a ops w, Forall (fun o => forall c, iop_ctx o = Some c -> ic_newtm c <> a) ops -> tka a w (irun H verify w ops).
+  Proof. exact (irun_token_forever H verify). Qed.
 End C18.
 Print Assumptions c18_inbound_two_step.
 Print Assumptions c18_token_never_replaced.
+Print Assumptions c18_token_forever.
 Print Assumptions c18_mintership_leaves_service.
 Print Assumptions c18_no_minter_no_mint.
 Check c18_inbound_two_step.
 Check c18_token_never_replaced.
+Check c18_token_forever.
